@@ -249,15 +249,16 @@ def sample_n_random_actions(td: TensorDict, n: int):
     valid actions
     """
     action_mask = td["action_mask"]
-    # check whether to use replacement or not
-    n_valid_actions = torch.sum(action_mask[:, 1:], 1).min()
-    if n_valid_actions < n:
-        replace = True
-    else:
-        replace = False
+    # check whether to use replacement or not: decided per instance, so that an instance with enough
+    # valid actions gets distinct ones even if another instance of the batch has fewer than n
+    replace = torch.sum(action_mask[:, 1:], 1) < n
     ps = torch.rand((action_mask.shape))
     ps[~action_mask] = -torch.inf
     ps = torch.softmax(ps, dim=1)
-    selected = torch.multinomial(ps, n, replacement=replace).squeeze(1)
+    selected = torch.empty(action_mask.shape[0], n, dtype=torch.long)
+    if replace.any():
+        selected[replace] = torch.multinomial(ps[replace], n, replacement=True)
+    if not replace.all():
+        selected[~replace] = torch.multinomial(ps[~replace], n, replacement=False)
     selected = rearrange(selected, "b n -> (n b)")
     return selected.to(td.device)
